@@ -62,7 +62,8 @@ def make_or_violation(ctx, brs, bs, copy_buf):
             try:
                 sl.make_split([k], bs, copy_buf)
             except Exception:   # noqa
-                offenders.add(kind_key(dict(k, stop=NONE)))
+                form = k.get("form", "el")
+                offenders.add(k["t"] + "/" + ("tuple" if form in ("tup", "pp", "sl") else form))
         ctx.violation("Split.__init__:raised:%s:%s:bs=%s" % (exc_name(exc), "+".join(sorted(offenders)) or kinds_key(brs),
                                                              bs_key(bs)),
                       {"brs": brs, "bs": bs, "copy_buf": copy_buf, "exception": repr(exc)})
@@ -437,9 +438,12 @@ def run(ctx):
                "(and, for every scenario without arithmetic branches, arbitrary objects at these positions)")
     branch_actions = ("ReadBlock", "BranchSrc", "BranchFC", "BranchFR", "BranchSeq", "BlockDone", "Final")
     th = "_thorough" if ctx.thorough else ""
-    jobs = [tlcpar.mc("Split", "Split_%s.cfg" % tag, ("Identity", "Rerun") + branch_actions),
-            tlcpar.mc("Split", "Split_audit%s.cfg" % th, ("Identity", "Abort", "Suspend", "Resume") + branch_actions),
-            tlcpar.mc("SplitCT", "SplitCT%s_mc.cfg" % th, ("FillOne", "Compute", "Request", "ResetZ", "Call")),
+    w = ctx.nworkers
+    jobs = [tlcpar.mc("Split", "Split_%s.cfg" % tag, ("Identity", "Rerun") + branch_actions, workers=max(2, 3 * w // 4)),
+            tlcpar.mc("Split", "Split_audit%s.cfg" % th, ("Identity", "Abort", "Suspend", "Resume") + branch_actions,
+                      workers=max(2, 3 * w // 4)),
+            tlcpar.mc("SplitCT", "SplitCT%s_mc.cfg" % th, ("FillOne", "Compute", "Request", "ResetZ", "Call"),
+                      workers=max(2, w // 4)),
             tlcpar.export("Split", "Split_%s_export.cfg" % tag, 1000),
             tlcpar.export("Split", "Split_audit%s_export.cfg" % th, 1000),
             tlcpar.export("SplitCT", "SplitCT%s_export.cfg" % th, 100)]
